@@ -384,14 +384,14 @@ def _empty_guard(ctx: Ctx):
     return c08.rule_empty_guard(ctx, "C09.8")
 
 
-def rule_edit_row_range(ctx: Ctx) -> RuleResult:
+def rule_edit_row_range(ctx: Ctx, clause: str = "C09.10") -> RuleResult:
     """Edit.move_cursor_to_coords accepts a row only if the cursor can be put on it: the bounds the requested row is
     compared with are display rows taken from the layout (the row of edit position 0 from position_coords(), the
     number of layout lines) - a count made on the raw caption text does not know where the caption wraps."""
     from ..rules.defuse import DefUse
 
     p = ctx.p
-    rr = RuleResult("KIND", "C09.10", "Edit.move_cursor_to_coords compares the requested row only with rows derived from the layout (position_coords / get_line_translation)", floor=2)
+    rr = RuleResult("KIND", clause, "Edit.move_cursor_to_coords bounds the requested row on both sides by rows derived from the layout (position_coords / get_line_translation)", floor=1)
     fi = p.func("urwid.widget.edit.Edit.move_cursor_to_coords")
     du = DefUse(fi)
     y = fi.params[3]
@@ -408,8 +408,13 @@ def rule_edit_row_range(ctx: Ctx) -> RuleResult:
                 rr.inst(norm(c, 40), True, {"comparison": norm(c, 40), "bound_is": txt[:80]})
                 if not isinstance(other, ast.Constant) and not any(k in txt for k in LAYOUT):
                     rr.add(finding("KIND", fi, c, f"the requested row is compared with `{txt[:80]}`, which is not derived from the layout (position_coords / get_line_translation): with a caption that wraps, caption-only rows are accepted, the move reports success and the cursor ends up on another row", construct=f"row bound not from the layout: {norm(c, 40)}"))
-    if n < 2:
-        raise AnalysisError("Edit.move_cursor_to_coords: the two bounds tests of the requested row were not found")
+    # both bounds are needed: the first row that holds edit text (position_coords of offset 0 - caption rows above it
+    # are not targets) and the number of layout rows
+    texts = [smp["bound_is"] for smp in rr.samples if isinstance(smp, dict) and "bound_is" in smp]
+    lower = any("position_coords(" in t for t in texts)
+    upper = any("get_line_translation(" in t for t in texts)
+    if not (lower and upper) and not rr.findings:
+        rr.add(finding("KIND", fi, fi.node, f"move_cursor_to_coords no longer bounds the requested row by {'the row of the first edit character (position_coords(maxcol, 0))' if not lower else 'the number of layout rows'}: rows that hold only caption text are accepted as targets, `up` from the first edit row is swallowed and the cursor jumps to offset 0", construct="requested row not bounded by the layout on both sides"))
     return rr
 
 
@@ -438,6 +443,7 @@ _PIL = "urwid/widget/pile.py"
 _COL = "urwid/widget/columns.py"
 _BOX = "urwid/widget/box_adapter.py"
 MUTANTS = [
+    Mut("edit-accepts-caption-rows", "urwid/widget/edit.py", "Edit.move_cursor_to_coords", "        _top_x, top_y = self.position_coords(maxcol, 0)\n        if y < top_y or y >= len(trans):", "        if not 0 <= y < len(trans):", "KIND|widget.edit.Edit.move_cursor_to_coords"),
     Mut("popup-cursor-forwarded-blindly", "urwid/widget/popup.py", "PopUpTarget.get_cursor_coords", "        if not hasattr(self._current_widget, \"get_cursor_coords\"):\n            return None\n", "", "OPTCALL|widget.popup.PopUpTarget.get_cursor_coords"),
     Mut("popup-move-forwarded-blindly", "urwid/widget/popup.py", "PopUpTarget.move_cursor_to_coords", "        if not hasattr(self._current_widget, \"move_cursor_to_coords\"):\n            return True\n", "", "OPTCALL|widget.popup.PopUpTarget.move_cursor_to_coords"),
     Mut("pile-move-unguarded", "urwid/widget/pile.py", "Pile.keypress", "            if not hasattr(self.focus, \"move_cursor_to_coords\"):\n                return None\n", "", "OPTCALL|widget.pile.Pile.keypress"),
